@@ -186,7 +186,7 @@ theorem demoteAcct_phase (g : Bool) {s : Pool} (a : Addr) (h : Phase s) : Phase 
       simp only [hsome, Bool.and_false, Bool.false_eq_true, if_false, List.take_length]
       exact he2
 
-/-- after demotion with the gap fix the pending list of the account is a payable run from the chain nonce -/
+/-- after demotion (code at HEAD, `gapFix = true`) the pending list of the account is a payable run from the chain nonce -/
 def RunPay (s : Pool) (b : Addr) : Prop :=
   IsRun (s.cnonce b) (s.pending b).items ∧ ∀ t ∈ (s.pending b).items, Payable (s.balance b) s.maxGas t
 
@@ -309,7 +309,7 @@ theorem syncNonces_good {s : Pool} (h : Phase s) (hrp : ∀ b, RunPay s b) : Goo
   · intro b hb
     rw [h1, h2]; rw [h3] at hb; exact h.1.2 b hb
 
-/-! ## the demotion as written (front gap only) agrees with the patched one on contiguous lists -/
+/-! ## the demotion before c2af732 (front gap only) agrees with the one at HEAD on contiguous lists -/
 
 theorem dKeep_agree {s : Pool} (a : Addr) (h : WeakAll s) {c : Nat} (hc : IsRun c (s.pending a).items) :
     dKeep false s a = dKeep true s a := by
@@ -390,7 +390,7 @@ theorem resetMid_phase (s : Pool) (v : View) (oldNum newNum : Nat) (reorg : Bool
   · exact h0
   · exact addTxs_pres addClosed_phase _ _ _ _ _ _ h0
 
-/-- the reset as written is the patched reset whenever the re-injection leaves no hole -/
+/-- the pre-c2af732 reset is the reset at HEAD whenever the re-injection leaves no hole -/
 theorem reset_agree (s : Pool) (v : View) (oldNum newNum : Nat) (reorg : Bool) (disc inc : List Tx) (o : ResetOracle)
     (h : Good s) (hn : NoHole (s.resetMid v oldNum newNum reorg disc inc o)) :
     s.reset false v oldNum newNum reorg disc inc o = s.reset true v oldNum newNum reorg disc inc o := by
